@@ -208,6 +208,155 @@ fn cut_array8_update(_a: &mut Array8, _coupon: u32) {
     panic!("verif cut: an array-mode update reached while the sketch is still a list");
 }
 
+// ---------------------------------------------------------------------------------------------
+// Promotions in contract form (quick): the three promotion functions replay EVERY coupon of the source
+// container exactly once into the new representation. The target's update() is a recorder (its own
+// step semantics are c02_set_update_step_* / c02_array*_update_*), so only the replay is decided.
+// ---------------------------------------------------------------------------------------------
+static mut PR_REC: [u32; 9] = [0; 9];
+static mut PR_N: usize = 0;
+fn pr_record(c: u32) {
+    unsafe {
+        if PR_N < 9 {
+            PR_REC[PR_N] = c;
+        }
+        PR_N += 1;
+    }
+}
+pub(crate) fn pr_set_update(_s: &mut HashSet, c: u32) {
+    pr_record(c)
+}
+pub(crate) fn pr_array4_update(_a: &mut Array4, c: u32) {
+    pr_record(c)
+}
+pub(crate) fn pr_array6_update(_a: &mut Array6, c: u32) {
+    pr_record(c)
+}
+pub(crate) fn pr_array8_update(_a: &mut Array8, c: u32) {
+    pr_record(c)
+}
+pub(crate) fn pr_estimate(_c: &Container) -> f64 {
+    8.0
+}
+fn pr_container() -> (Container, [u32; 8]) {
+    let slots: [u32; 8] = kani::any();
+    let mut c = Container::new(3);
+    let mut n = 0;
+    let mut i = 0;
+    while i < 8 {
+        c.coupons[i] = slots[i];
+        if slots[i] != 0 {
+            n += 1;
+        }
+        i += 1;
+    }
+    c.len = n;
+    unsafe {
+        PR_N = 0;
+    }
+    (c, slots)
+}
+fn pr_check(slots: &[u32; 8]) {
+    let mut j = 0usize;
+    let mut i = 0;
+    while i < 8 {
+        if slots[i] != 0 {
+            assert!(j < 9 && unsafe { PR_REC[j] } == slots[i], "a coupon of the source container was not replayed (or out of order / altered)");
+            j += 1;
+        }
+        i += 1;
+    }
+    assert!(unsafe { PR_N } == j, "the promotion replayed something that is not a coupon of the source");
+}
+
+fn pr_case_set() {
+    let t = any_type();
+    let (c, slots) = pr_container();
+    let m = promote_container_to_set(&c, t);
+    pr_check(&slots);
+    match &m {
+        Mode::Set { set, hll_type } => {
+            assert!(*hll_type == t && set.container().lg_size() == 5);
+        }
+        _ => panic!("list -> set promotion did not produce a set"),
+    }
+    kani::cover!(unsafe { PR_N } == 8);
+    kani::cover!(unsafe { PR_N } == 0);
+    core::mem::forget(m);
+    core::mem::forget(c);
+}
+fn pr_case_grow() {
+    let t = any_type();
+    let (c, slots) = pr_container();
+    let old: HashSet = unsafe { core::mem::transmute::<Container, HashSet>(c) };
+    let m = grow_set(&old, t);
+    pr_check(&slots);
+    match &m {
+        Mode::Set { set, hll_type } => {
+            assert!(*hll_type == t && set.container().lg_size() == 4, "grow_set does not double the table");
+        }
+        _ => panic!("grow_set did not produce a set"),
+    }
+    kani::cover!(unsafe { PR_N } == 8);
+    kani::cover!(unsafe { PR_N } == 0);
+    core::mem::forget(m);
+    core::mem::forget(old);
+}
+fn pr_case_array(t: HllType) {
+    let (c, slots) = pr_container();
+    let m = promote_container_to_array(&c, t, 4);
+    pr_check(&slots);
+    let ok = match (&m, t) {
+        (Mode::Array4(_), HllType::Hll4) | (Mode::Array6(_), HllType::Hll6) | (Mode::Array8(_), HllType::Hll8) => true,
+        _ => false,
+    };
+    assert!(ok, "array promotion produced a different target type");
+    kani::cover!(unsafe { PR_N } == 8);
+    kani::cover!(unsafe { PR_N } == 0);
+    core::mem::forget(m);
+    core::mem::forget(c);
+}
+
+macro_rules! promotion_replay {
+    ($name:ident, $body:expr) => {
+        #[kani::proof]
+        #[kani::unwind(10)]
+        #[kani::stub(crate::hll::hash_set::HashSet::update, pr_set_update)]
+        #[kani::stub(Array4::update, pr_array4_update)]
+        #[kani::stub(Array6::update, pr_array6_update)]
+        #[kani::stub(Array8::update, pr_array8_update)]
+        #[kani::stub(crate::hll::container::Container::estimate, pr_estimate)]
+        fn $name() {
+            $body;
+        }
+    };
+}
+
+//@ family: promotion_replay
+//@ props: C02
+//@ tier: quick
+//@ timeout: 900
+//@ functions: hll::sketch::promote_container_to_set
+//@ functions: hll::sketch::grow_set
+//@ functions: hll::sketch::promote_container_to_array
+//@ functions: hll::container::Container::iter
+//@ stubs: HashSet::update, Array4::update, Array6::update, Array8::update -> recorders; Container::estimate -> constant
+//@ replay_stub: hll/hash_set.rs | pub fn update(&mut self, coupon: u32) { | if true { return crate::hll::sketch::verif_kani_hll_sketch::pr_set_update(self, coupon); }
+//@ replay_stub: hll/array4.rs | pub fn update(&mut self, coupon: u32) { | if true { return crate::hll::sketch::verif_kani_hll_sketch::pr_array4_update(self, coupon); }
+//@ replay_stub: hll/array6.rs | pub fn update(&mut self, coupon: u32) { | if true { return crate::hll::sketch::verif_kani_hll_sketch::pr_array6_update(self, coupon); }
+//@ replay_stub: hll/array8.rs | pub fn update(&mut self, coupon: u32) { | if true { return crate::hll::sketch::verif_kani_hll_sketch::pr_array8_update(self, coupon); }
+//@ replay_stub: hll/container.rs | pub fn estimate(&self) -> f64 { | if true { return crate::hll::sketch::verif_kani_hll_sketch::pr_estimate(self); }
+//@ bounds: a source container of 8 slots with arbitrary contents (0 = empty slot, any number of coupons 0..=8, any u32 values), every target type; the array is created at lg_k = 4
+//@ assumes: the target's update() has the step semantics decided by c02_set_update_step_* / c02_array*_update_*
+//@ desc: promote_container_to_set, grow_set and promote_container_to_array hand every coupon of the source container exactly once, unaltered, to the new representation's update() and nothing else; the new set is one size larger than the old one (grow_set) resp. 2^5 (list -> set); the mode carries the requested target type
+//@ unwind: 10
+promotion_replay!(c02_promotion_replay_list_to_set, pr_case_set());
+promotion_replay!(c02_promotion_replay_grow_set, pr_case_grow());
+promotion_replay!(c02_promotion_replay_to_array4, pr_case_array(HllType::Hll4));
+promotion_replay!(c02_promotion_replay_to_array6, pr_case_array(HllType::Hll6));
+promotion_replay!(c02_promotion_replay_to_array8, pr_case_array(HllType::Hll8));
+//@ endfamily: x
+
 static mut ARRAY_PROMOTIONS: u32 = 0;
 static mut ARRAY_PROMOTION_LG_K: u8 = 0;
 /// recorder standing in for promote_container_to_array (the replay itself is c02_promote_list_to_array*)
